@@ -31,6 +31,9 @@ PROPS = {
     "C17": ("c17", "Dominance of every print of stored parameter numbers by the refresh of that fit's formatters (same iteration scope, through callers); copy "
                    "structure of the refresh; fixed flag set / tested; key -> live property tables of result dictionary, report and preface; canonical forms of the "
                    "decimal-place formulas; language rule on the LaTeX exponent regular expression (must consume every double exponent)."),
+    "C18": ("c18", "Role agreements (axis / kind / side) of the eight adapter properties of the four plot adapters read off their names; slot tables of the draw calls; "
+                   "canonical forms of ratio / residual / pull and of the band formulas; total uncertainty with the Poisson term in quadrature; info box: refresh in the "
+                   "same iteration scope and cost numbers read from the described fit."),
     "C19": ("c19", "Path rule R-A over every function executable after construction on 31 anchor classes: no rejection point (explicit escaping raise, "
                    "same-object call that may reject, or call into the validator table) is reachable on the CFG after a node with a state write "
                    "(interprocedural write effects, ignoring getter-internal refreshes and listed cache/scratch fields), unless a handler rolls the write "
